@@ -7,6 +7,7 @@ from ..rules_flow import forwarding
 from ..loader import walk_own, norm_stmt, AnalysisError
 from .common import add_fwd, calls_in, ret_deps_by_node
 from .common import check as ob
+from ..canon import Canon
 
 EXPLANATION = (
     'Decides: (a) per vocabulary, the prefix set recognised by is_X_str equals the set stripped by _strip_X_str, and '
@@ -179,6 +180,22 @@ def strip_rule(ctx, rep, clause):
         idioms = strip_idiom(f.node)
         if not idioms:
             raise AnalysisError(f'{stripf}: no prefix-stripping return found')
+        # the remainder is looked up case-sensitively: it has to be cut from the caller's text, not from the
+        # case-folded copy the prefix test uses (data fact: how many bundled names contain a capital letter)
+        with_upper = 0
+        if obo is not None:
+            with open(os.path.join(data_dir, obo), encoding='utf-8', errors='replace') as fh:
+                with_upper = sum(1 for line in fh if line.startswith('name: ') and line[6:].strip() != line[6:].strip().lower())
+        cs = Canon(f.node)
+        for kind, node in idioms:
+            folded = [c for c in ast.walk(cs.resolve(node.value)) if isinstance(c, ast.Call) and
+                      isinstance(c.func, ast.Attribute) and c.func.attr in ('lower', 'casefold', 'upper')]
+            ob(rep, 'CALL-strip', f.fq, f'{vocab}: the remainder is cut from the text as the caller wrote it',
+               not folded or with_upper == 0, f'{with_upper} bundled {vocab} names contain a capital letter',
+               f'`{norm_stmt(node)}` returns a case-folded remainder, but {with_upper} bundled {vocab} names contain a '
+               f'capital letter and names are looked up as written: the prefixed name spelling of such an entry '
+               f'resolves to "unknown modification" (or to a different entry) while the accession resolves', f.loc(node),
+               clause)
         for kind, node in idioms:
             if kind == 'unknown':
                 raise AnalysisError(f'{stripf}: stripping idiom not understood: {norm_stmt(node)}')
